@@ -111,6 +111,10 @@ def run(ctx) -> None:
     rep.rule("C13.R3", "no processor method is called outside events/dispatcher.py", floor=1)
     rep.rule("C13.R7", "event builders are total: observer-only code between the runner and the dispatcher's guard cannot raise on run data", floor=7)
     rep.rule("C13.R8", "observer-only code shares no mutable process state with node functions: nothing under events/ or the runners draws from (or seeds) the process-global random generator", floor=40)
+    rep.rule("C13.R9", "every registered processor receives the complete stream: each delivery uses the dispatcher channel that reaches every processor kind (awaited async method in coroutines, sync method in plain functions)", floor=20)
+    from .c12 import check_delivery_channel
+
+    check_delivery_channel(ctx, "C13.R9")
     rep.rule("C13.R4", "code guarded by the 'active' flag only builds and emits events", floor=6)
     rep.rule("C13.R5", "dispatcher shutdown of a top-level call happens in a finally block", floor=4)
     rep.rule("C13.R6", "the list of processors is fixed after construction (own copy, never modified by a dispatcher method)", floor=5)
